@@ -100,7 +100,7 @@ where
             }
         } else if let Some(first) = verdict.first() {
             let level = first.split(':').next().unwrap_or("?").to_string();
-            let class: String = first.split(':').nth(1).unwrap_or("").split(|c: char| c.is_ascii_digit() || c == '[').next().unwrap_or("").trim().to_string();
+            let class: String = vcore::report::msg_class(first.splitn(2, ':').nth(1).unwrap_or(""));
             self.rep.violation(Finding {
                 signature: sig("reference_validity", json!({"level": level, "class": class})),
                 description: format!("after {op:?} -> {}: state fails the independent reference at guarantee {:?}: {first}", out.class(), dt.topology_guarantee()),
